@@ -246,7 +246,7 @@ def run_type_cases(cases, target, stats, pre=''):
 def key_of(c, obs):
     if obs.startswith('status '):
         return 'crash/%s/%s' % (obs.replace(' ', '-'), c.opclass)
-    if c.family:
+    if c.family and (c.type is not None or obs == 'accepted'):
         return c.family
     if c.type is None:
         a, b = sorted((c.lcls, c.rcls)) if c.opclass in ('cond', 'eq', 'rel', 'add', 'mul', 'bit', 'logical') else (c.lcls, c.rcls)
@@ -296,7 +296,7 @@ def pack(spec, cases, target, stats, pre=''):
     types = {tname(c.type) for c in cases if c.type is not None}
     okc = [c for c in cases if c.type is not None]
     sanity = [(c.expr, tname(c.type), c.ext) for c in cases if c.type is not None and M.unq(c.type)[0] != M.VOID and
-              zlib.crc32(c.expr.encode()) % 61 == 0]
+              zlib.crc32(c.expr.encode()) % (61 if spec[0] == 'triples' else 5) == 0]
     sample = None
     if okc:
         c = okc[len(okc) // 2]
@@ -315,6 +315,9 @@ COND_FAMILY = 'type/conditional-of-same-narrow-type-operands-not-promoted'
 PLUS_FAMILY = 'type/unary-plus-returns-operand-unconverted'
 FULLWIDTH_FAMILY = 'accepts-invalid/full-width-bit-field-treated-as-ordinary-member'
 PTRFLOAT_FAMILY = 'accepts-invalid/cast-between-pointer-and-floating-type'
+BITFLOAT_FAMILY = 'accepts-invalid/bitwise-operator-with-floating-operand'
+ASSIGN_FAMILY = 'accepts-invalid/assignment-operator-constraints-not-checked'
+EQNULL_FAMILY = 'accepts-invalid/equality-of-null-pointer-constant-and-arithmetic-operand'
 
 
 def triple_cases(op, lnames, tgt):
@@ -333,6 +336,16 @@ def triple_cases(op, lnames, tgt):
                     t = M.expr_binary_type(op, L.o, Rk.o, tgt)
             except M.Invalid:
                 t = None
+            if t is None:
+                lt, rt = M.value_type(L.o), M.value_type(Rk.o)
+                if op in ('&', '^', '|') and M.is_arith(lt) and M.is_arith(rt):
+                    fam = BITFLOAT_FAMILY           # known family: & ^ | do not check for integer operands
+                elif op in ('=', '+=', '<<=') and L.o.lvalue and not isinstance(M.unq(L.o.type)[0], (M.Arr, M.Func)):
+                    fam = ASSIGN_FAMILY             # known family: the assignment operators check no constraint but lvalue-ness
+                elif op in ('==', '!=') and ((L.name == 'nullvp' and M.is_arith(rt)) or (Rk.name == 'nullvp' and M.is_arith(lt))):
+                    fam = EQNULL_FAMILY
+                elif op == '?:' and {L.name, Rk.name} == {'pv', 'fn'}:
+                    fam = 'accepts-invalid/conditional-of-function-pointer-and-void-pointer'
             e = '(x_int ? %s : %s)' % (L.expr, Rk.expr) if op == '?:' else '(%s %s %s)' % (L.expr, op, Rk.expr)
             out.append(Case('triples', (op, L.name, Rk.name), e, t, OPCLASS[op], L.cls, Rk.cls, L.ext + Rk.ext, fam))
     return out
@@ -555,7 +568,12 @@ REC_S2 = M.Rec('struct', 'S2')
 TY2_BASES_Q = (M.INT, M.UINT, EU, REC_S)
 TY2_BASES_T = (M.INT, M.UINT, M.CHAR, M.LONG, M.LLONG, EU, REC_S, REC_S2)
 CTORS = ('P', 'PC', 'CP', 'A2', 'A3', 'A0', 'F0', 'F1', 'FV', 'FP', 'FN')
-TY2_PRE = 'struct S2 { int m; };\n'
+TY2_PRE = 'enum EU { EU_A = 1 }; typedef enum EU tEU; struct S { int m; }; struct S2 { int m; };\n'
+
+
+def assoc_name(t):
+    """type name for a generic association: 'enum EU: 1' would read as an enum with fixed underlying type"""
+    return M.cname(t).replace('enum EU', 'tEU')
 
 
 def apply_ctor(c, t):
@@ -642,7 +660,7 @@ def _ty2_job(args):
                     continue       # not allowed as an association type
                 ca = lvalue_converted(a)
                 c11, c23 = (not qb and M.compatible(ca, ub, False)), (not qb and M.compatible(ca, ub, True))
-                text = 'int k%s = _Generic(*(%s)0, %s: 1, default: 0);\n' % (key, M.cname(M.Ptr(a)), M.cname(b))
+                text = 'int k%s = _Generic(*(%s)0, %s: 1, default: 0);\n' % (key, M.cname(M.Ptr(a)), assoc_name(b))
                 want, valid = int(c11), True
             elif mode == 'redecl':
                 c11, c23 = M.compatible(a, b, False), M.compatible(a, b, True)
@@ -651,7 +669,7 @@ def _ty2_job(args):
             else:   # pointer assignment  (a *) = (b *): compatible pointees, no qualifier lost (6.5.16.1)
                 c11 = M.compatible(ua, ub, False) and set(qb) <= set(qa)
                 c23 = M.compatible(ua, ub, True) and set(qb) <= set(qa)
-                text = 'extern %s; extern %s; void g%s(void) { pa%s = pb%s; }\n' % (M.cdecl(M.Ptr(a), 'pa' + key), M.cdecl(M.Ptr(b), 'pb' + key), key, key, key)
+                text = 'extern %s; void g%s(void) { %s = pb%s; }\n' % (M.cdecl(M.Ptr(b), 'pb' + key), key, M.cdecl(M.Ptr(a), 'pa'), key)
                 valid = c11
             stats['transitions'] += 1
             if c11 != c23:
@@ -663,7 +681,7 @@ def _ty2_job(args):
                 expect[key] = want
             else:
                 singles.append((key, text))
-    data, rej = R.many(items, prelude=PRE_BASE + TY2_PRE)
+    data, rej = R.many(items, prelude=TY2_PRE)
     for key, text in items:
         i, j = map(int, key.split('_'))
         if key in rej:
@@ -675,7 +693,7 @@ def _ty2_job(args):
     for key, text in singles:
         i, j = map(int, key.split('_'))
         stats['expected_reject'] += 1
-        r = R.compile(PRE_BASE + TY2_PRE + text)
+        r = R.compile(TY2_PRE + text)
         if r.status != 1:
             bad.append((mode, i, j, text, 'reject', 'accepted' if r.status == 0 else 'status %d' % r.status))
     stats['runs'] = R.runs
@@ -825,6 +843,18 @@ def _w_lines(args):
     return {i for i in failing if i >= 0}
 
 
+def _w_ty2(args):
+    """True iff every witness agrees with R's verdict on a Ty2 judgement"""
+    text, want = args
+    if want in ('valid', 'reject') or want is None:
+        oks = [witness.gcc_accepts(TY2_PRE + text, std='c11', pedantic=True)[0]] + \
+            [witness.clang_accepts(TY2_PRE + text, target=t, std='c11', pedantic=True)[0] for t in TARGETS]
+        return all(oks) if want == 'valid' else not any(oks)
+    line = re.sub(r'^int k\w+ = (.*);\n$', lambda m: '_Static_assert((%s) == %d, "");\n' % (m.group(1), want), text)
+    return all([witness.gcc_accepts(TY2_PRE + line, std='gnu11', pedantic=False)[0]] +
+               [witness.clang_accepts(TY2_PRE + line, target=t, std='gnu11', pedantic=False)[0] for t in TARGETS])
+
+
 def _w_rejects(args):
     """True iff every witness rejects the unit (strict C11 when it uses no extension)"""
     target, body, ext, extra_pre = args
@@ -859,6 +889,8 @@ def main(chk):
         if chk.want('decay'):
             flat.append(('decay', 3 if q else 4, target))
     random.Random(chk.seed).shuffle(jobs)
+    if not q and not os.environ.get('VERIF_DEADLINE_S'):
+        chk.deadline = min(chk.deadline, chk.t0 + 1260)      # leave time for the witnesses inside the 30 minute budget
     chk.log('%d operand kinds, %d + %d jobs' % (len(KINDS), len(jobs), len(flat)))
 
     strata, cells, types, recs, sanity, fsanity, samples = {}, set(), set(), [], [], [], []
@@ -881,7 +913,7 @@ def main(chk):
 
     for res in fs.pimap(_job, jobs):
         absorb(*res)
-        sanity += [(e, t, x, res[0][-1]) for e, t, x in res[5]]
+        sanity += [(e, t, x, call_cases()[0] if res[0][0] == 'calls' else '') for e, t, x in res[5]]
         if chk.expired():
             break
     for res in fs.pimap(_flat_job, flat):
@@ -972,32 +1004,35 @@ def main(chk):
             amb(r['key'], 'a witness accepts what R calls a constraint violation', r['expr'])
     # Ty2 disagreements
     types2 = ty2_types(q) if ty2_bad else []
-    for mode, i, j, text, want, obs, target in ty2_bad[:400]:
+    tjobs2, trecs, perkey = [], [], {}
+    for mode, i, j, text, want, obs, target in ty2_bad:
         a, b = types2[i], types2[j]
         key = 'compat/%s/%s-vs-%s' % (mode, ty_class(a), ty_class(b))
         if obs.startswith('status '):
             key = 'crash/%s/ty2-%s' % (obs.replace(' ', '-'), mode)
-        if want in ('valid', 'reject'):
-            oks = [witness.gcc_accepts(PRE_BASE + TY2_PRE + text, std='c11', pedantic=True)[0]] + \
-                [witness.clang_accepts(PRE_BASE + TY2_PRE + text, target=t, std='c11', pedantic=True)[0] for t in TARGETS]
-            agree = all(oks) if want == 'valid' else not any(oks)
-        else:
-            line = re.sub(r'^int k\w+ = (.*);\n$', lambda m: '_Static_assert((%s) == %d, "");\n' % (m.group(1), want), text)
-            oks = [witness.gcc_accepts(PRE_BASE + TY2_PRE + line, std='gnu11', pedantic=False)[0]] + \
-                [witness.clang_accepts(PRE_BASE + TY2_PRE + line, target=t, std='gnu11', pedantic=False)[0] for t in TARGETS]
-            agree = all(oks)
+        perkey[key] = perkey.get(key, 0) + 1
+        if perkey[key] > CAP:
+            capped[key] = capped.get(key, 0) + 1
+            continue
+        tjobs2.append((text, want))
+        trecs.append((key, mode, text, want, obs, target))
+    for (key, mode, text, want, obs, target), agree in zip(trecs, fs.pmap(_w_ty2, tjobs2) if tjobs2 else []):
         if not agree and not key.startswith('crash/'):
             amb(key, 'the witnesses do not all agree with R', text.strip())
             continue
         chk.violation(key, '%s [%s]: R expects %s, compiler gave %s' % (text.strip(), target, want, obs),
-                      files={'input.c': (PRE_BASE + TY2_PRE + text).encode()}, cmd='$CPROC_QBE -t %s input.c; echo "status=$?"' % target)
+                      files={'input.c': (TY2_PRE + text).encode()}, cmd='$CPROC_QBE -t %s input.c; echo "status=$?"' % target)
 
     # sanity sample: cases where cproc agreed with R, put to the witnesses as well
     sanity = sorted(set(sanity))[:4000]
+    nsanity = len(sanity) + min(1500, len(set(fsanity)))
     groups = {}
-    for e, t, x, target in sanity:
-        groups.setdefault(None, []).append(('_Static_assert(_Generic(%s, %s: 1, default: 0), "");' % (e, t), x))
-    sjobs = [(k, lines[i:i + 300], '') for k, lines in groups.items() for i in range(0, len(lines), 300)]
+    for e, t, x, pre in sanity:
+        groups.setdefault(pre, []).append(('_Static_assert(_Generic(%s, %s: 1, default: 0), "");' % (e, t), x))
+    for st, text, want in sorted(set(fsanity))[:1500]:
+        pre = {'members': MEMBER_PRE, 'typeof': TYPEOF_PRE, 'decay': DECAY_PRE}[st]
+        groups.setdefault(pre, []).append((re.sub(r'^int k0 = (.*);$', lambda m: '_Static_assert((%s) == %d, "");' % (m.group(1), want), text), ''))
+    sjobs = [(None, lines[i:i + 300], k) for k, lines in groups.items() for i in range(0, len(lines), 300)]
     sdis = 0
     sdis_classes = {}
     for (k, lines, _), bad in zip(sjobs, fs.pmap(_w_lines, sjobs) if sjobs else []):
@@ -1027,7 +1062,7 @@ def main(chk):
         'disagreements_with_R': tot['disagreements'],
         'unconfirmed_on_replay': tot['unconfirmed_on_replay'],
         'same_family_cases_not_individually_consulted': capped,
-        'witness_sanity_lines': len(sanity),
+        'witness_sanity_lines': nsanity,
         'witness_sanity_disagreements': sdis,
         'witness_sanity_disagreement_classes': sdis_classes,
         'rule': 'state = (operator, left operand kind, right operand kind) cell of the typing table (or a type of Ty2 x judgement); transition = one '
